@@ -66,6 +66,9 @@ func ruleWriterPurity(p *Prog, l *Ledger, tier string) {
 			if isIOWriterParam(fn, base) && strings.HasPrefix(ef.Loc, "io(") {
 				continue
 			}
+			if strings.HasPrefix(base, "CBP") && strings.HasPrefix(ef.Loc, "io(") {
+				continue // I/O on the destination a locally created function value is handed: output, not mutation
+			}
 			bad++
 			l.Fail(rule, name, rule+"|"+name+"|"+base+"|"+ef.Loc, p.Pos(ef.Pos), name+" is not pure: "+effDesc(p, ef))
 		}
@@ -164,13 +167,17 @@ func ruleNoSharedState(p *Prog, l *Ledger, tier string) {
 						if c == fn {
 							continue
 						}
-						for k := range e.Sum[c].Effects {
-							inCallee[k] = true
+						if cs := e.Sum[c]; cs != nil {
+							for k := range cs.Effects {
+								inCallee[k] = true
+							}
 						}
 					}
 				case *ssa.MakeClosure:
-					for k := range e.Sum[x.Fn.(*ssa.Function)].Effects {
-						inCallee[k] = true
+					if cs := e.Sum[x.Fn.(*ssa.Function)]; cs != nil {
+						for k := range cs.Effects {
+							inCallee[k] = true
+						}
 					}
 				}
 			}
